@@ -115,6 +115,12 @@ void Archiver::Close()
         for (uintptr_t i = 1; i <= num; i++)
         {
             const pointer_fixup_t* const fixup = fixupList.ObjectAt(i);
+            if (fixup->type == pointer_fixup_e::afterLoad)
+            {
+                // runs below, once every pointer is in place
+                continue;
+            }
+
             void* ptr = classpointerList.ObjectAt(fixup->index);
             if (fixup->type == pointer_fixup_e::normal)
             {
@@ -123,6 +129,15 @@ void Archiver::Close()
             else if (fixup->type == pointer_fixup_e::safe)
             {
                 fixup->safePtr->InitSafePtr(static_cast<AbstractClass*>(ptr));
+            }
+        }
+
+        for (uintptr_t i = 1; i <= num; i++)
+        {
+            const pointer_fixup_t* const fixup = fixupList.ObjectAt(i);
+            if (fixup->type == pointer_fixup_e::afterLoad)
+            {
+                fixup->func(fixup->object);
             }
             delete fixup;
         }
@@ -551,6 +566,21 @@ void Archiver::ReadDataInternal(void* data, size_t size)
         // a short read leaves the rest of the destination untouched: report it now, not on the next call
         throw ArchiveErrors::ReadStreamFail();
     }
+}
+
+void Archiver::AfterLoad(void (*func)(void* object), void* object)
+{
+    if (archivemode != archiveMode_e::Read)
+    {
+        return;
+    }
+
+    pointer_fixup_t* const fixup = new pointer_fixup_t;
+    fixup->object = object;
+    fixup->index = 0;
+    fixup->type = pointer_fixup_e::afterLoad;
+    fixup->func = func;
+    fixupList.AddObject(fixup);
 }
 
 bool Archiver::Loading() const
